@@ -705,6 +705,32 @@ func genC03(tier string, seed uint64) {
 			}
 			runHist(svc, earlier, sc[0])
 		}
+		// histories whose earlier sessions end in the middle of a line, command or data block: their last step cut
+		// short, or an unterminated tail after a complete script (whatever they leave behind must not reach the probe)
+		for i := range sc {
+			var earlier [][][]byte
+			for k := range sc {
+				if k == i {
+					continue
+				}
+				last := sc[k][len(sc[k])-1]
+				cut := len(last) / 2
+				if cut == 0 {
+					cut = 1
+				}
+				earlier = append(earlier, append(append([][]byte{}, sc[k][:len(sc[k])-1]...), last[:cut]))
+				earlier = append(earlier, append(append([][]byte{}, sc[k]...), []byte("left-over-"+word(r, 6))))
+			}
+			runHist(svc, earlier, sc[i])
+			if i == 0 {
+				// the same leftover several times in a row (pooled objects are handed over with some probability only)
+				var rep [][][]byte
+				for k := 0; k < 6; k++ {
+					rep = append(rep, append(append([][]byte{}, sc[1][:1]...), []byte("left-over-"+word(r, 6))))
+				}
+				runHist(svc, rep, sc[0])
+			}
+		}
 	}
 	// ftp: login state and working directory per session, through the Lean session model too
 	fop := func(c, p string) string { return c + ":" + hx([]byte(p)) }
